@@ -186,6 +186,7 @@ def run(ctx):
             ev = {"a": fn, "exc": "", "kind": kind if kind != "float64" else "float", "neg": o[0], "w": o[1], "f": o[2],
                   "hp": hp if hp is not None else [0, 0, 0, 0], "srcsame": True}
             angl.append({"rep": src, "ang": {"neg": a0[0], "w": a0[1], "f": a0[2]}, "fan": False, "pt": [0, 0, 0], "below": False,
+                         "ctor": {"on": False, "neg": 0, "w": 0, "f": 0},
                          "chain": [fn], "ev": [ev], "src": r})
         elif fn in ("geo2grid", "grid2geo"):
             # both directions as the exact Transverse Mercator at the geographic position involved (event TMA of Trace_Grid):
